@@ -80,6 +80,9 @@ impl<'a, 'b> Packer<'a, 'b> {
         match n {
             MNode::Leaf(v) => v.clone(),
             MNode::Obj(ms) => {
+                // decided before the members are visited, so that wide objects (whose members use
+                // up the choice stream and the budget) get list-level deviations as often as others
+                let sd_level_deviation = self.deviate();
                 let mut out = Map::new();
                 let mut sd: Vec<Value> = vec![];
                 let visible_names: Vec<String> = ms.iter().filter(|m| !m.hidden).map(|m| m.name.clone()).collect();
@@ -172,8 +175,29 @@ impl<'a, 'b> Packer<'a, 'b> {
                     }
                 }
                 let mut sd_value: Option<Value> = if sd.is_empty() { None } else { Some(Value::Array(sd.clone())) };
-                if self.deviate() {
-                    match self.ch.pick(8) {
+                if sd_level_deviation {
+                    match self.ch.pick(10) {
+                        8 | 9 => {
+                            // a string that is *almost* a digest of a presented disclosure: padded,
+                            // other alphabet, other case, surrounded by whitespace. It is not the
+                            // digest, so nothing may be disclosed through it.
+                            if let Some(first) = sd.iter().filter_map(Value::as_str).next().map(String::from) {
+                                self.deviations.push("near_digest_variant_in__sd");
+                                let v = match self.ch.pick(7) {
+                                    0 => format!("{}=", first),
+                                    1 => format!("{}==", first),
+                                    2 => first.replace('-', "+").replace('_', "/"),
+                                    3 => format!(" {}", first),
+                                    4 => format!("{}\n", first),
+                                    5 => first.to_uppercase(),
+                                    _ => format!("{}A", first),
+                                };
+                                let pos = sd.iter().position(|x| x.as_str() == Some(first.as_str())).unwrap_or(0);
+                                // replace the real digest by the variant (the member must then stay hidden)
+                                sd[pos] = Value::String(v);
+                                sd_value = Some(Value::Array(sd.clone()));
+                            }
+                        }
                         0 => {
                             if let Some(first) = sd.first().cloned() {
                                 self.deviations.push("digest_twice_in_one__sd");
